@@ -71,6 +71,8 @@ def gen_history(g, n, csv, w, malformed, bulk=0):
     ops = []
     if bulk:
         ops.append(bulk_insert(g, bulk))
+        if r.random() < 0.7:
+            g.tbase = bulk         # later points are mostly newer than the bulk: the index stays valid
     reads = []
     for _ in range(n):
         if reads and r.random() < 0.06:
@@ -337,6 +339,8 @@ class Family:
                 break
         if self.prop == "C11":
             res.findings += self.aliased_rollback()
+        if self.prop == "C06":
+            res.findings += self.failed_rebuild()
         res.findings.sort(key=lambda f: (f.signature is not None, f.kind == "correspondence"))
         res.notes.append(f"disagreements attributed to other properties (reported by their own checks): {foreign}")
         return res
@@ -373,6 +377,75 @@ class Family:
                         "impl-vs-spec",
                         f"memory storage, the same Point object inserted {n_alias} times: after update_all raised, contents are {after}, before the call {before}",
                         dict(family="hist-alias", aliases=n_alias, fail_on=fail_on, observed=after, expected=before)))
+        return out[:1]
+
+    def failed_rebuild(self):
+        """a rebuild of the index that fails part-way (a transient read error after k rows of the scan) must
+        leave nothing behind: the next successful rebuild answers like a fresh index over the same storage"""
+        import shutil
+        import tempfile
+
+        tf = C.import_tinyflux()
+        from tinyflux.index import Index
+        from tinyflux.storages import CSVStorage
+
+        class Flaky(CSVStorage):
+            fail_after = None
+
+            def __iter__(self):
+                n = 0
+                for row in super().__iter__():
+                    if self.fail_after is not None and n == self.fail_after:
+                        self.fail_after = None
+                        raise OSError(5, "transient read error")
+                    n += 1
+                    yield row
+
+        out = []
+        d = tempfile.mkdtemp(prefix="vf_rebuild_")
+        try:
+            for k in range(0, 7):
+                path = os.path.join(d, f"r{k}.csv")
+                db = tf.TinyFlux(path, storage=Flaky, auto_index=True)
+                pts = [tf.Point(time=V.dt_of(G.T0 + i), measurement=("m1" if i % 2 else "m2"),
+                                tags={"a": "x" if i % 3 else "y"}, fields={"f": i}) for i in range(6)]
+                db.insert_multiple(pts)
+                db.insert(tf.Point(time=V.dt_of(G.T0 - 5), measurement="m1", tags={"b": "z"}))   # out of order
+                db._storage.fail_after = k
+                raised = False
+                try:
+                    db.count(tf.TagQuery().a == "x")
+                except OSError:
+                    raised = True
+                runner_probe = []
+                fresh = Index()
+                live_ok = True
+                try:
+                    n_live = db.count(tf.TagQuery().a == "x")
+                    contents = [db._storage._deserialize_storage_item(i) for i in db._storage]
+                    fresh.build(contents)
+                    from impl import ImplRunner
+                    R = ImplRunner.__new__(ImplRunner)
+                    R.tf = tf
+                    for pr in probes():
+                        a1, a2 = R._idx_answer(db.index, pr), R._idx_answer(fresh, pr)
+                        if a1 != a2:
+                            runner_probe.append((V.sx(pr), a1, a2))
+                    if len(db) != len(contents):
+                        runner_probe.append(("len(db)", str(len(db)), str(len(contents))))
+                except Exception as e:
+                    live_ok = False
+                    runner_probe.append(("read after the failed rebuild", "raised " + type(e).__name__, "an answer"))
+                db.close()
+                if (runner_probe and db.index.valid) or not live_ok:
+                    out.append(Finding(
+                        "impl-vs-spec",
+                        f"csv/auto: 6 in-order points, one out-of-order insert, a read whose index rebuild fails with a transient "
+                        f"OSError after {k} rows (raised={raised}), then reads: the valid index differs from a rebuilt one: {runner_probe[:3]}",
+                        dict(family="hist-failed-rebuild", fail_after=k, observed=[list(x) for x in runner_probe[:6]],
+                             expected="live index == index rebuilt from storage")))
+        finally:
+            shutil.rmtree(d, ignore_errors=True)
         return out[:1]
 
     def make_finding(self, case, d, model_ok, with_probes):
@@ -426,6 +499,10 @@ def signature(case, d):
 
 
 def replay(payload):
+    if payload.get("family") == "hist-failed-rebuild":
+        r = Family("C06").failed_rebuild()
+        print(r[0].summary if r else "failed-rebuild scenario passes")
+        return bool(r)
     if payload.get("family") == "hist-alias":
         r = Family("C11").aliased_rollback()
         print(r[0].summary if r else "aliased rollback scenario passes")
